@@ -413,7 +413,7 @@ def search(run: Run):
 def main():
     run = Run(
         PID,
-        ["RV.Props.C15", "RV.Bridge.Agents"],
+        ["RV.Props.C15", "RV.Bridge.Agents", "RV.Bridge.Thrust"],
         ["RV/Model/Burn.lean"],
         "Lean 4 theorem: per propagation call the thrust is on exactly on the overlap of the call with [start, end], hence total on-time = end - start for every "
         "division into calls (telescoping clip) + differential correspondence of the on/off callback times of the real propagators under the real prune rule + "
